@@ -14,6 +14,8 @@ Both directions are obligations: "encrypted => the file-encrypted error, before
 any content / any member read" and "file-encrypted error => encrypted".
 """
 import ast
+import os
+import sys
 
 import z3
 
@@ -364,6 +366,9 @@ INLINE_METHODS = {"_get_stream"}
 
 
 # ----------------------------------------------------------------- executor --
+LOOP_RULES = {}      # (element kind, origin tag) -> LoopSpec; filled next to the specs they belong to
+
+
 class VGen(VUnk):
     """Lazy generator expression over symbolic sequences (consumed by any()/all())."""
     __slots__ = ("vars", "cond", "elt")
@@ -429,6 +434,56 @@ class C08Executor(readfile.ReadFileExecutor):
         if not self.inline_calls and name not in INLINE_METHODS and self.reg.get(f"{self.module.rel}::{st.obj(obj.ref).cls}.{name}") is None:
             return self.havoc_call(st, f"method:{name}", [obj] + list(args), node)
         return super().obj_method(st, obj, name, args, kwargs, node)
+
+    RELEVANT = ("ExtractionFileEncryptedError", "Encrypted7zFile", "_encrypted", "needs_password", "decrypt", "patch_pypdf_fallback_aes",
+                "flag_bits", "is_encrypted", "CODER_AES_PREFIX", "FIB_ENCRYPTED_FLAG")
+
+    def _relevant_helper(self, name, depth=0):
+        """Does this same-module helper (or one it calls, two levels) take part in encryption detection?  Only such helpers are
+        executed in place under inline_local; all others stay EXC-ANY calls (sound either way: this is a cost/precision choice)."""
+        cache = self.module.__dict__.setdefault("_c08_relevant", {})
+        if name in cache:
+            return cache[name]
+        fnode = self.module.functions.get(name)
+        if fnode is None:
+            return False
+        cache[name] = False
+        src = ast.unparse(fnode)
+        ok = any(tok in src for tok in self.RELEVANT)
+        if not ok and depth < 2:
+            called = {n.func.id for n in ast.walk(fnode) if isinstance(n, ast.Call) and isinstance(n.func, ast.Name)}
+            ok = any(c in self.module.functions and c != name and self._relevant_helper(c, depth + 1) for c in called)
+        cache[name] = ok
+        return ok
+
+    def local_helper(self, f):
+        r = super().local_helper(f) and self._relevant_helper(f.b)
+        if r and os.environ.get("C08_TRACE_INLINE"):
+            print(f"[inline_local] {self.contract.target.split('::')[-1] if self.contract else '?'} <- {f.b}", file=sys.stderr, flush=True)
+        return r
+
+    def symbolic_for(self, s, st, it):
+        self._loop_subject = ("for", it, st)
+        return super().symbolic_for(s, st, it)
+
+    def s_While(self, s, st):
+        self._loop_subject = ("while", None, st)
+        return super().s_While(s, st)
+
+    def loop_spec(self, node):
+        """Invariants follow the data, not the position of the loop: a `for` gets the rule of the sequence it iterates
+        (LOOP_RULES, by element kind and origin tag), a `while` walking the one symbolic byte string of its frame gets the
+        record-chain rule -- in the function under contract or in a helper executed in place."""
+        if self.contract is None:
+            return None
+        kind, it, st = getattr(self, "_loop_subject", (None, None, None))
+        if isinstance(node, ast.For) and kind == "for" and isinstance(it, VSeq) and isinstance(it.tag, tuple) and it.tag:
+            return LOOP_RULES.get((it.ekind, it.tag[0]))
+        if isinstance(node, ast.While) and kind == "while" and st is not None:
+            env = st.frames[-1].env
+            if len([v for v in env.values() if isinstance(v, VSeq) and v.is_bytes and isinstance(v.tag, tuple)]) == 1:
+                return LOOP_RULES.get(("while", "record-chain"))
+        return super().loop_spec(node)
 
     def havoc_loop_state(self, st, body, spec, extra_names=()):
         # lists the body grows/shrinks (append/extend/insert/pop/remove/clear) do not keep their length
@@ -636,6 +691,9 @@ def _spec_or_unknown(spec, name="file_like"):
     return r
 
 
+LOOP_RULES[("while", "record-chain")] = LoopSpec(inv=xls_loop_inv, label="record-chain", decreases=xls_loop_decreases)
+
+
 def detector_contracts(reg):
     out = []
     FL = [("file_like", p_ext("BytesIO"))]
@@ -655,7 +713,7 @@ def detector_contracts(reg):
     out.append(FnContract(
         target=f"{ENC}::is_xls_encrypted", params=FL, modifies=("file_like",),
         returns=_spec_or_unknown(spec_xls), raises=lib,
-        loops={0: LoopSpec(inv=xls_loop_inv, label="record-chain", decreases=xls_loop_decreases)},
+        loops={},
         note="legacy XLS: FILEPASS (0x002F) somewhere on the BIFF record chain of the Workbook/Book stream"))
     out.append(FnContract(
         target=f"{ZB}::open_zipfile", assumed=True,
@@ -725,7 +783,7 @@ def doc_contracts(reg):
     out = []
     for q in ("_DocReader._parse_content", "_DocReader.read"):
         t = f"{DOC}::{q}"
-        EXECUTOR_KW[t] = {"abstract": True, "inline_calls": False, "merge_after_check": True}
+        EXECUTOR_KW[t] = {"abstract": True, "inline_calls": False, "inline_local": True, "merge_after_check": True}
         out.append(FnContract(
             target=t, params=[("self", reader)], modifies=("self",),
             result_maker=lambda ex, st, ctx: VUnk("DocContent"),
@@ -801,7 +859,7 @@ def doc_contracts(reg):
                       lambda c: z3.Implies(z3.And(z3.Or(from_detector(c), z3.BoolVal(own(c))), is_enc_err(c)), dsp(c)))],
         note="DOC: the parse (FIB check) precedes the first yield; its file-encrypted error is passed through unchanged")
     cd.on_yield = doc_on_yield
-    EXECUTOR_KW[t] = {"abstract": True, "inline_calls": False}
+    EXECUTOR_KW[t] = {"abstract": True, "inline_calls": False, "inline_local": True}
     out.append(cd)
     return out
 
@@ -820,7 +878,7 @@ def m_infolist(ex, st, obj, args, kwargs, node):
     ex.exc_any(st.fork(), f"{ex.loc(node)} ZipFile.infolist")
     zf = obj.t
     st.ghost["infolist_ok"] = True
-    return [(st, VSeq(NZ(zf), lambda i: VExt("ZipInfo", INFO(zf, i)), "ZipInfo"))]
+    return [(st, VSeq(NZ(zf), lambda i: VExt("ZipInfo", INFO(zf, i)), "ZipInfo", tag=("infolist", zf)))]
 
 
 def m_seek2(ex, st, obj, args, kwargs, node):
@@ -922,7 +980,8 @@ def install_archive_models(reg):
     reg.method_models[("SevenZipFile", "needs_password")] = m_7z_needs_password
     reg.method_models[("SevenZipFile", "extractall")] = m_7z_extractall
     reg.method_models[("SevenZipFile", "list")] = lambda ex, st, o, a, k, n: (_exc_any_unless_signal(ex, st.fork(), "SevenZipFile.list", z3.BoolVal(False)), [(st, VUnk("file_list"))])[1]
-    reg.attr_models[("Folder", "coders")] = lambda ex, st, o: VSeq(NCOD(o.t), lambda j: VTuple([VExt("CoderId", CID(o.t, j)), VUnk("props")]), "tuple")
+    reg.attr_models[("Folder", "coders")] = lambda ex, st, o: VSeq(NCOD(o.t), lambda j: VTuple([VExt("CoderId", CID(o.t, j)), VUnk("props")]), "tuple",
+                                                                   tag=("coders", o.t))
     reg.method_models[("CoderId", "startswith")] = m_cid_startswith
     reg.attr_models[("Folder", "unpack_sizes")] = lambda ex, st, o: VUnk("unpack_sizes")
     # os.path.basename on a str: ASSUMED total and pure
@@ -968,7 +1027,7 @@ def archive_contracts(reg):
         return ZIP_OF(c.args["file_like"].t)
 
     def zip_inv(lc):
-        zf = ZIP_OF(lc.entry.lookup("file_like").t)
+        zf = lc.seq.tag[1]
         j = z3.Int("j!zinv")
         g = lc.st.ghost
         return z3.And(z3.ForAll([j], z3.Implies(z3.And(j >= 0, j < lc.i), z3.Or(ISDIR(INFO(zf, j)), z3.Extract(0, 0, FLAG(INFO(zf, j))) == 0)),
@@ -991,7 +1050,7 @@ def archive_contracts(reg):
         raises=[Raises("Exception", sub=True)],
         exc_ensures=[("flagged-member-implies-encrypted-error-before-any-read-or-result", zip_if),
                      ("encrypted-error-only-if-some-member-has-flag-bit-0", zip_only_if)],
-        loops={0: LoopSpec(inv=zip_inv, label="flag-scan")},
+        loops={},
         note="ZIP: a non-directory member with general-purpose flag bit 0 <=> file-encrypted error, before any zf.read / yield")
 
     def zip_on_read(ex, st, obj, node):
@@ -1003,7 +1062,7 @@ def archive_contracts(reg):
         ex.add_vc("typestate", "no-result-before-every-flag-was-checked", st.pc,
                   z3.Not(spec_zip_enc(zf)) if zf is not None else z3.BoolVal(False), loc=ex.loc(node))
     cz.on_zip_read, cz.on_yield = zip_on_read, zip_on_yield
-    EXECUTOR_KW[t] = {"abstract": True, "inline_calls": False}
+    EXECUTOR_KW[t] = {"abstract": True, "inline_calls": False, "inline_local": True}
     out.append(cz)
 
     # ---------------- 7z extractor
@@ -1049,20 +1108,20 @@ def archive_contracts(reg):
         ex.add_vc("typestate", "no-result-before-needs_password-returned-false", st.pc,
                   z3.And(z3.BoolVal(bool(st.ghost.get("needs_password_called"))), z3.Not(spec_7z_folders_enc(RV_OF(SZ_OF(f))))), loc=ex.loc(node))
     c7.on_extractall, c7.on_yield = z7_on_extractall, z7_on_yield
-    EXECUTOR_KW[t] = {"abstract": True, "inline_calls": False}
+    EXECUTOR_KW[t] = {"abstract": True, "inline_calls": False, "inline_local": True}
     out.append(c7)
 
     # ---------------- sevenzip.py: needs_password / _apply_decoder
     def folders_maker():
         def mk(ex, st, name):
             rv = z3.Const(name.replace(".", "_") + "_view", RView)
-            return [(NFOLD(rv) >= 0, VSeq(NFOLD(rv), lambda i: VExt("Folder", FOLDER(rv, i)), "Folder", tag=rv))]
+            return [(NFOLD(rv) >= 0, VSeq(NFOLD(rv), lambda i: VExt("Folder", FOLDER(rv, i)), "Folder", tag=("folders", rv)))]
         return Maker(mk, desc="list[Folder] of symbolic length, each with a coder list of symbolic length")
 
     READER = p_obj("SevenZipReader", {"_folders": folders_maker()})
 
     def view(c, name="self"):
-        return c.entry.obj(c.args[name].ref).data["_folders"].tag
+        return c.entry.obj(c.args[name].ref).data["_folders"].tag[1]
 
     out.append(FnContract(
         target=f"{SEVEN}::SevenZipReader.needs_password", params=[("self", READER)],
@@ -1071,7 +1130,7 @@ def archive_contracts(reg):
 
     def szf_reader(c):
         r = c.entry.obj(c.args["self"].ref).data["_reader"]
-        return None if r is NONE else c.entry.obj(r.ref).data["_folders"].tag
+        return None if r is NONE else c.entry.obj(r.ref).data["_folders"].tag[1]
 
     out.append(FnContract(
         target=f"{SEVEN}::SevenZipFile.needs_password",
@@ -1091,7 +1150,7 @@ def archive_contracts(reg):
                          z3.And(z3.BoolVal(own(c) and aes_signal(c.ex.module.repo)[1]), c.ex.uni.subclass_term(c.exc.tidx, aes_signal(c.ex.module.repo)[0])
                                 if c.ex.uni.known(aes_signal(c.ex.module.repo)[0]) else z3.BoolVal(False)), is_aes(c.args["coder_id"].t)))],
         note="an AES coder is never decoded / passed through: Bad7zFile"))
-    EXECUTOR_KW[f"{SEVEN}::SevenZipReader._apply_decoder"] = {"abstract": True, "inline_calls": False}
+    EXECUTOR_KW[f"{SEVEN}::SevenZipReader._apply_decoder"] = {"abstract": True, "inline_calls": False, "inline_local": True}
 
     # _decompress_folder: the coder chain of a folder (also of the encoded header's folder) is decoded through _apply_decoder,
     # coder by coder -- data comes back only if NO coder of the folder is AES
@@ -1100,13 +1159,29 @@ def archive_contracts(reg):
         return z3.Exists([j], z3.And(j >= 0, j < (NCOD(fo) if upto is None else upto), is_aes(CID(fo, j))))
 
     def dec_inv(lc):
-        fo = lc.entry.lookup("folder")
-        if not isinstance(fo, VExt):
-            return z3.BoolVal(False)
+        fo = lc.seq.tag[1][1]          # reversed(folder.coders)
         j = z3.Int("j!dinv")
-        n = NCOD(fo.t)
+        n = NCOD(fo)
         # the coders already applied (the last lc.i of the chain) are not AES
-        return z3.ForAll([j], z3.Implies(z3.And(j >= n - lc.i, j < n), z3.Not(is_aes(CID(fo.t, j)))), patterns=[CID(fo.t, j)])
+        return z3.ForAll([j], z3.Implies(z3.And(j >= n - lc.i, j < n), z3.Not(is_aes(CID(fo, j)))), patterns=[CID(fo, j)])
+
+    def dec_fwd_inv(lc):
+        fo = lc.seq.tag[1]             # folder.coders in forward order
+        j = z3.Int("j!dinv")
+        return z3.ForAll([j], z3.Implies(z3.And(j >= 0, j < lc.i), z3.Not(is_aes(CID(fo, j)))), patterns=[CID(fo, j)])
+
+    def folders_inv(lc):
+        rv = lc.seq.tag[1]
+        i_, j = z3.Int("i!finv"), z3.Int("j!finv")
+        return z3.ForAll([i_, j], z3.Implies(z3.And(i_ >= 0, i_ < lc.i, j >= 0, j < NCOD(FOLDER(rv, i_))), z3.Not(is_aes(CID(FOLDER(rv, i_), j)))),
+                         patterns=[CID(FOLDER(rv, i_), j)])
+
+    LOOP_RULES.update({
+        ("tuple", "reversed"): LoopSpec(inv=dec_inv, label="coder-chain"),
+        ("tuple", "coders"): LoopSpec(inv=dec_fwd_inv, label="coder-chain"),
+        ("Folder", "folders"): LoopSpec(inv=folders_inv, label="folders"),
+        ("ZipInfo", "infolist"): LoopSpec(inv=zip_inv, label="flag-scan"),
+    })
 
     def dec_signal_only_aes(c):
         name, dedicated = aes_signal(c.ex.module.repo)
@@ -1123,9 +1198,9 @@ def archive_contracts(reg):
         ensures=[("decoded-data-only-if-no-coder-of-the-folder-is-aes", lambda c: z3.Not(folder_has_aes(c.args["folder"].t)))],
         raises=[Raises("Exception", sub=True)],
         exc_ensures=[("encryption-signal-only-if-some-coder-is-aes", dec_signal_only_aes)],
-        loops={0: LoopSpec(inv=dec_inv, label="coder-chain")},
+        loops={},
         note="every coder of the chain goes through _apply_decoder (contract: an AES coder never returns data)"))
-    EXECUTOR_KW[t] = {"abstract": True, "inline_calls": False}
+    EXECUTOR_KW[t] = {"abstract": True, "inline_calls": False, "inline_local": True}
     return out
 
 
@@ -1178,7 +1253,7 @@ def m_xml_findall(ex, st, obj, args, kwargs, node):
     if a != XMLENC_ED_PATH:
         return ex.havoc_call(st, "Element.findall", args, node)
     st.assume(NED(obj.t) >= 0)
-    return [(st, VSeq(NED(obj.t), lambda j: VExt("XmlElem", EDAT(obj.t, j)), "XmlElem"))]
+    return [(st, VSeq(NED(obj.t), lambda j: VExt("XmlElem", EDAT(obj.t, j)), "XmlElem", tag=("EncryptedData", obj.t)))]
 
 
 XMLENC_METHOD_PATH = "{http://www.w3.org/2001/04/xmlenc#}EncryptionMethod"
@@ -1209,12 +1284,12 @@ def m_xml_get(ex, st, obj, args, kwargs, node):
 
 
 def epub_loop_inv(lc):
-    ctx = lc.entry.lookup("ctx")
-    if not isinstance(ctx, VExt):
-        return z3.BoolVal(False)
-    root = ROOT(ctx.t, sv(ENCXML))
+    root = lc.seq.tag[1]
     j = z3.Int("j!einv")
     return z3.ForAll([j], z3.Implies(z3.And(j >= 0, j < lc.i), font_obfuscation(EDAT(root, j))), patterns=[EDAT(root, j)])
+
+
+LOOP_RULES[("XmlElem", "EncryptedData")] = LoopSpec(inv=epub_loop_inv, label="entries")
 
 
 def new_epub_ctx(ex, st, args, kwargs, node):
@@ -1237,7 +1312,7 @@ def epub_contracts(reg):
     return [FnContract(
         target=f"{EPUB}::_is_epub_encrypted", params=[("ctx", p_ext("EpubContext"))], raises=[],
         result_maker=lambda ex, st, ctx: VBool(z3.Bool(fresh_name("epub_encrypted"))),
-        loops={0: LoopSpec(inv=epub_loop_inv, label="entries")},      # (used only if the function has a loop over the entries)
+        loops={},
         ensures=[("drm-protected-epub-is-detected",
                   lambda c: z3.Implies(z3.And(readable(c), spec_epub_drm(_ft(c, "ctx"))), c.result.t) if _ft(c, "ctx") is not None else z3.BoolVal(True)),
                  ("true-only-if-drm-protected",
@@ -1372,7 +1447,7 @@ def pdf_contracts(reg):
         returns=lambda c: (c.st.ghost.__setitem__("reader_opened", True), VExt("PdfReader", READER_OF(_ft(c))) if _ft(c) is not None else VExt("PdfReader"))[1],
         raises=[Raises("Exception", sub=True)],
         note="a reader over the given bytes (retry with the built-in AES after a DependencyError)"))
-    EXECUTOR_KW[t] = {"abstract": True, "inline_calls": False}
+    EXECUTOR_KW[t] = {"abstract": True, "inline_calls": False, "inline_local": True}
 
     def R(c):
         return READER_OF(c.args["file_like"].t)
@@ -1417,7 +1492,7 @@ def pdf_contracts(reg):
         ex.add_vc("dataflow", "pages-are-read-from-the-reader-that-passed-the-decrypt-check", st.pc,
                   z3.And(z3.BoolVal(ok), checked(ex, st, obj.t)) if ok else z3.BoolVal(False))
     cp.on_yield, cp.on_pages = pdf_on_yield, pdf_on_pages
-    EXECUTOR_KW[t] = {"abstract": True, "inline_calls": False, "merge_after_check": True}
+    EXECUTOR_KW[t] = {"abstract": True, "inline_calls": False, "inline_local": True, "merge_after_check": True}
     out.append(cp)
     return out
 
@@ -1490,7 +1565,7 @@ def typestate_contracts(reg, detectors):
                               lambda c: z3.Implies(z3.And(z3.BoolVal(own(c)), is_enc_err(c)), z3.And(ret(c), sp(c))))],
                 note="every path to the first yield passes the detector; a True result raises the file-encrypted error")
             c.on_yield = on_yield
-            EXECUTOR_KW[c.target] = {"abstract": True, "inline_calls": False, "merge_after_check": True}
+            EXECUTOR_KW[c.target] = {"abstract": True, "inline_calls": False, "inline_local": True, "merge_after_check": True}
             return c
         out.append(mk())
     return out
@@ -1521,7 +1596,7 @@ def readfile_contracts(reg):
         raises=[Raises("Exception", sub=True)],
         exc_ensures=[("file-encrypted-error-of-the-extractor-is-never-wrapped", not_wrapped)],
         note="entry point: `except ExtractionError: raise` lets the extractor's ExtractionFileEncryptedError escape as such"))
-    EXECUTOR_KW[t] = {"abstract": True, "inline_calls": False}
+    EXECUTOR_KW[t] = {"abstract": True, "inline_calls": False, "inline_local": True}
     return out
 
 
